@@ -488,7 +488,10 @@ Definition chk_fit (c : fit_case) : bool :=
   match cap_state choose cap cfg cur with
   | None => false
   | Some (_, s') =>
-      same_set obs_entry_eqb (obs s') (obs fit) && list_eqb key_eqb (pend s') (pend fit) && list_eqb Z.eqb (failed s') (failed fit) &&
+      same_set obs_entry_eqb (obs s') (obs fit) && list_eqb key_eqb (pend s') (pend fit) &&
+      (* the predictor is cached until observations or pending evaluations change; mark_trial_failed does not invalidate it
+         (the model does not depend on failed trials), so its failed list may lag behind: a sub-list of the current one *)
+      forallb (fun t => mem_Z t (failed s')) (failed fit) &&
       Nat.eqb (length (obs s')) (Nat.min (length (obs cur)) cap) &&
       multiset_eqb (fitted_rows (cfg_of tbl) s') rows
   end.
